@@ -18,7 +18,7 @@ CHECK = dict(
           S("par-model-tsan", quick=2400, thorough=3000, workers=16, case_timeout=1200, env={"TSAN_OPTIONS": "halt_on_error=0:report_signal_unsafe=0:symbolize=0:exitcode=0"})],
     rule=("cases = thread programs built from 5 groups of operations that touch the same shared object (all unordered pairs incl. the same op twice, triples and 2+1 programs for "
           "the small groups); per case ALL interleavings within the bound. distinct = programs; non-trivial = programs with more than one explored interleaving."),
-    bounds=dict(quick="about 270 programs: pairs with preemption bound 2, triples / 2+1 programs of the small groups with bound 1",
+    bounds=dict(quick="272 programs (4 of them on the mesh-ID counter with TBB task boundaries as scheduling points): pairs with preemption bound 2, triples / 2+1 programs of the small groups with bound 1",
                 thorough="all triples and 2+1 programs of every group, bounds 3 / 2, 30000 executions per program"),
     assumptions=COMMON_ASSUME + ["sequentially consistent interleavings only", "4-8 client threads are not explored (only 2-3)"],
 )
